@@ -246,3 +246,57 @@ func vDrbgSeed() *drbg.Seed {
 	verifrt.Assume(err == nil)
 	return s
 }
+
+// VerifC15PacketTamper: lemma X3 (second half) – one modified byte in a packet: the client
+// reports ErrInvalidPacket and delivers none of that packet's bytes (ideal HMAC); bytes of
+// earlier packets only.
+func VerifC15PacketTamper() {
+	verifrt.Ideal()
+	seed := verifrt.Bytes("seed", 32)
+	cc := verifrt.NewConn("c", nil)
+	c := &ssConn{Conn: cc, lenDist: probdist.New(vDrbgSeed(), minLenDistLength, maxLenDistLength, true),
+		receiveBuffer: bytes.NewBuffer(nil), receiveDecodedBuffer: bytes.NewBuffer(nil)}
+	verifrt.Assume(c.initCrypto(seed) == nil)
+	okm := make([]byte, kdfSecretLength)
+	_, _ = io.ReadFull(hkdf.Expand(sha256.New, seed, nil), okm)
+	blk, _ := aes.NewCipher(okm[40:72])
+	iv := append(append([]byte{}, okm[72:80]...), 0, 0, 0, 0, 0, 0, 0, 1)
+	stream := cipher.NewCTR(blk, iv)
+	p1 := verifrt.Bytes("payload1", 2)
+	p2 := verifrt.Bytes("payload2", 3)
+	pk1 := refServerPacket(stream, okm[112:144], pktPayload, p1, 1)
+	pk2 := refServerPacket(stream, okm[112:144], pktPayload, p2, 0)
+	wire := append(append([]byte{}, pk1...), pk2...)
+	which := verifrt.Pick("tampered_packet", 0, 1)
+	start, plen := 0, len(pk1)
+	if which == 1 {
+		start, plen = len(pk1), len(pk2)
+	}
+	off := verifrt.Pick("offset", 0, 63) % plen
+	mask := verifrt.Byte("mask")
+	verifrt.Assume(mask != 0)
+	verifrt.Witness(off - macLength)
+	wire[start+off] ^= mask
+	cc.In = wire
+	cc.MaxChunks = 1
+	cc.EOFAtEnd = true
+	lengthsIntact := off < macLength || off >= macLength+4
+	var got []byte
+	var lastErr error
+	buf := make([]byte, 16)
+	for i := 0; i < 4 && lastErr == nil; i++ {
+		n, err := c.Read(buf)
+		got = append(got, buf[:n]...)
+		lastErr = err
+	}
+	var before []byte
+	if which == 1 {
+		before = p1
+	}
+	verifrt.Assert(len(got) <= len(before) && verifrt.Equal(got, before[:len(got)]), "no byte of the modified packet (or of anything behind it) is delivered")
+	verifrt.Assert(lastErr != nil, "the modified stream ends in an error")
+	if lengthsIntact {
+		verifrt.Assert(errors.Is(lastErr, ErrInvalidPacket), "a modified MAC / flags / body byte is reported as ErrInvalidPacket")
+	}
+	verifrt.Reach("end")
+}
